@@ -100,6 +100,8 @@ def consumer_ready(c, t, r):
         return 1 if (t % c['k']) == c['phase'] % c['k'] else 0
     if k == 'burst2':                                   # exactly two consecutive ready cycles every k
         return 1 if (t % c['k']) in (c['phase'] % c['k'], (c['phase'] + 1) % c['k']) else 0
+    if k == 'window':                                   # `width` consecutive ready cycles every `k` clocks (a polling consumer)
+        return 1 if ((t + c['phase']) % c['k']) < c['width'] else 0
     if k == 'random':
         return 1 if r.chance(c['num'], c['den']) else 0
     if k == 'never':
@@ -165,13 +167,27 @@ def run_real(sc):
             drain -= 1
             if drain <= 0:
                 break
-    # keeps_up: >= 2 ready cycles in every window [frame end_i, frame end_{i+1}) ; last window up to the end of the run
-    ku = True
-    for i, e in enumerate(desync_t):
-        hi = desync_t[i + 1] if i + 1 < len(desync_t) else len(ready_hist)
+    # provisional keeps_up from the implementation's own desync pulses (only used when the Lean driver is unavailable);
+    # the authoritative value is computed from the LINE (spec level) in LinkBatch.finish -> keeps_up_from_line
+    ku = windows_ok(ready_hist, desync_t)
+    return dict(ins=ins, obs=obs, accepted=acc, delivered=dl, line=line, keeps_up=ku, keeps_up_desync=ku, frames=len(desync_t),
+                sent_all=(k >= len(bts)), ready_hist=ready_hist)
+
+
+def windows_ok(ready_hist, ends):
+    """>= 2 ready cycles in every window [frame end_i, frame end_{i+1}) ; last window up to the end of the run"""
+    for i, e in enumerate(ends):
+        hi = ends[i + 1] if i + 1 < len(ends) else len(ready_hist)
         if sum(ready_hist[e:hi]) < 2:
-            ku = False
-    return dict(ins=ins, obs=obs, accepted=acc, delivered=dl, line=line, keeps_up=ku, frames=len(desync_t), sent_all=(k >= len(bts)))
+            return False
+    return True
+
+
+def keeps_up_from_line(ready_hist, emit_idx):
+    """the consumer-keeps-up hypothesis evaluated at SPEC level: frame ends are taken from the line (the sample index at which
+    Uart.softRx emits the byte, mid stop bit; the deserializer of the unchanged code latches two clock indices later), not from
+    any signal of the deserializer under test -- a change inside the deserializer cannot move a failure into the known class"""
+    return windows_ok(ready_hist, [t + 2 for t in emit_idx])
 
 
 def enc_ins(ins):
@@ -222,6 +238,7 @@ class LinkBatch:
         self.reqs.append(f"link | {1 if full else 0} | {n} | {enc_ins(rr['ins'])}" if model else "softrx | 4 | ")
         self.reqs.append(f"ok | {','.join(map(str, rr['accepted']))} | {','.join(map(str, rr['delivered']))}")
         self.reqs.append(f"lineok | {2 * n} | {','.join(map(str, rr['accepted']))} | {','.join(map(str, rr['line']))}")
+        self.reqs.append(f"softrxt | {2 * n} | {','.join(map(str, rr['line']))}")
         self.jobs.append((sc, rr, i0, full))
         return rr
 
@@ -235,6 +252,14 @@ class LinkBatch:
         res = self.res
         for sc, rr, i0, full in jobs:
             summ = scen_summary(sc)
+            if out is not None:
+                try:
+                    emit = [int(x) for x in out[i0 + 3].split(',') if x.strip() != '']
+                    rr['keeps_up'] = keeps_up_from_line(rr['ready_hist'], emit)
+                except ValueError:
+                    pass
+            if rr['keeps_up'] != rr['keeps_up_desync']:
+                res.hist('keeps_up_line_vs_desync', 'differ')
             key = ('link', json.dumps(summ, sort_keys=True, default=str))
             res.count(key, hist={'link_n': sc['n'], 'link_consumer': sc['consumer']['kind'], 'link_producer': sc['producer']['kind'],
                                  'keeps_up': rr['keeps_up']})
@@ -454,6 +479,18 @@ def scenarios(rng, tier):
         for g0 in range(0, 2 * (2 * n) + 3):
             out.append(dict(n=n, freq=(2 * n * 100, 100), bytes=[0x53, 0x00, 0xFF], producer=dict(kind='hold', gaps=[g0, 0, g0 % 5]),
                             consumer=dict(kind='period', k=3, phase=g0), seed=g0))
+    # (d) polling consumers whose period is a multiple of the bit period: the previous byte is still pending (stall of 1.5 .. 6 bit
+    #     periods) when the next start bit falls, frames back-to-back or a few bit periods apart -- every ratio
+    demo = [0x55, 0xA3, 0x00, 0xFF, 0x01, 0x80, 0x7E, 0x42, 0x0F, 0xC3]
+    for n in (ns if quick else ns[:14] + [20, 32, 40]):
+        P = 2 * n
+        r = rng.fork(('d', n))
+        combos = [(3, 2, 0), (5, 2, 0), (3, 2, 3), (5, 2, 3 * P), (2, 1, 0), (4, 2, 6 * P)] if quick else \
+                 [(kp, w, g) for kp in (2, 3, 4, 5) for w in (1, 2, 3) for g in (0, 3, P, 3 * P, 6 * P)]
+        for kp, w, g in combos:
+            m = 6 if quick else 10
+            out.append(dict(n=n, freq=freqs_for(n, r), bytes=demo[:m], producer=dict(kind='hold', gaps=[g] * m),
+                            consumer=dict(kind='window', k=kp * P, width=w, phase=r.randint(0, kp * P - 1)), seed=n))
     # (b) gap patterns x consumer timings that keep up
     nb = 40 if quick else 400
     for j in range(nb):
@@ -465,13 +502,16 @@ def scenarios(rng, tier):
         gk = r.choice(['zero', 'small', 'bit', 'frame', 'mixed'])
         gaps = [dict(zero=0, small=r.randint(0, 7), bit=r.randint(0, 2 * P), frame=r.randint(0, 12 * P),
                      mixed=r.choice([0, 0, 1, r.randint(0, 3 * P)]))[gk] for _ in range(m)]
-        ck = r.choice(['always', 'period', 'burst2', 'random', 'period'])
+        ck = r.choice(['always', 'period', 'burst2', 'random', 'period', 'window'])
         if ck == 'period':
             cons = dict(kind='period', k=r.randint(1, 5 * P - 1), phase=r.randint(0, 50))       # >= 2 per 10P+ window
         elif ck == 'burst2':
             cons = dict(kind='burst2', k=r.randint(2, 10 * P), phase=r.randint(0, 50))
         elif ck == 'random':
             cons = dict(kind='random', num=r.randint(1, 4), den=r.randint(4, 8))
+        elif ck == 'window':
+            kk = r.randint(1, 5) * P + r.choice([0, 0, 1, -1, n])
+            cons = dict(kind='window', k=kk, width=r.randint(1, 3), phase=r.randint(0, kk))
         else:
             cons = dict(kind='always')
         prod = dict(kind='hold', gaps=gaps) if r.chance(3, 4) else dict(kind='random', num=r.randint(1, 3), den=r.randint(3, 9))
